@@ -72,6 +72,7 @@ type Ghost struct {
 	Name      string
 	Sort      string // SMT sort of the element: Int, Bool, Iface
 	AllocType string // Go type whose allocation zero-initialises this ghost ("" = none)
+	Stable    bool   // survives every havoc (conceptual state of the environment, changed only by explicit modifies targets)
 	Local     bool   // activation-local ghost: zero at function entry, never changed by callees except through an explicit modifies target
 }
 
@@ -247,19 +248,22 @@ func (cs *Contracts) LoadFile(path, pkgPath string) error {
 		switch l.kw {
 		case "ghost":
 			f := strings.Fields(l.rest)
-			if len(f) != 2 && !(len(f) == 4 && f[2] == "alloc") && !(len(f) == 3 && f[2] == "local") {
+			if len(f) != 2 && !(len(f) == 4 && f[2] == "alloc") && !(len(f) == 3 && (f[2] == "local" || f[2] == "stable")) {
 				return fail(l, "ghost NAME SORT [alloc TYPE | local]")
 			}
-			srt := map[string]string{"int": "Int", "bool": "Bool", "object": "Iface"}[f[1]]
+			srt := map[string]string{"int": "Int", "bool": "Bool", "object": "Iface", "string": "Str"}[f[1]]
 			if srt == "" {
-				return fail(l, "ghost sort must be int|bool|object")
+				return fail(l, "ghost sort must be int|bool|object|string")
 			}
 			g := &Ghost{Name: f[0], Sort: srt}
 			if len(f) == 4 {
 				g.AllocType = f[3]
 			}
-			if len(f) == 3 {
+			if len(f) == 3 && f[2] == "local" {
 				g.Local = true
+			}
+			if len(f) == 3 && f[2] == "stable" {
+				g.Stable = true
 			}
 			cs.Ghosts[f[0]] = g
 			cur, curLoop, curLemma = nil, nil, nil
